@@ -141,7 +141,7 @@ func OpString(op treefs.Op) string {
 	case "WriteFile":
 		fmt.Fprintf(&b, "WriteFile(%q,%q)", op.P, op.Data)
 	case "Writer":
-		fmt.Fprintf(&b, "Writer(%q)+%q%s+Close", op.P, op.Chunks, map[string]string{"": "", "copy": " via io.Copy", "string": " via io.WriteString"}[op.Via])
+		fmt.Fprintf(&b, "Writer(%q)+%q%s+Close", op.P, op.Chunks, map[string]string{"": "", "copy": " via io.Copy", "string": " via io.WriteString", "mixed": " via Write / io.WriteString / io.Copy in turn"}[op.Via])
 	case "Reader":
 		fmt.Fprintf(&b, "Reader(%q,buf=%d)", op.P, op.Buf)
 	case "CopyFile", "CopyDirectory", "Copy":
